@@ -11,13 +11,14 @@ import Hpbf.SmallVec
 import Hpbf.Expr
 import Hpbf.Ir
 import Hpbf.Driver
+import Hpbf.Driver2
 
 open Hpbf
 
 partial def loop (h : IO.FS.Stream) (out : IO.FS.Stream) : IO Unit := do
   let line ← h.getLine
   if line.isEmpty then return ()
-  let reply := Driver.handle (line.trimAscii.toString)
+  let reply := Driver2.handle (line.trimAscii.toString)
   out.putStrLn reply
   loop h out
 
